@@ -453,7 +453,7 @@ def run(tier, seed):
     # shrink all discrepancies in lock-step (shared interpreters), group the minimal cases by structure, then confirm
     # one representative per group alone in a FRESH interpreter: if it no longer fails there, the result depended on
     # what the process did before, which is itself a violation
-    CAP = 400 if tier == 'quick' else 1500
+    CAP = 800 if tier == 'quick' else 5000
     for i, d, got, want in failing[CAP:]:     # a flood of discrepancies: the tail is reported unshrunk
         chk.violation('not-shrunk:%s:%s:%s' % (d[0], cases[i]['ep'], d[1]),
                       {'ep': cases[i]['ep'], 'files': cases[i]['files'], 'flags': cases[i].get('flags', {})},
